@@ -103,6 +103,20 @@ structure LrOut where
   rate1 : Int
   deriving Repr, DecidableEq, Inhabited
 
+/-- The five branches of stereo_LR_to_MS.c:130-178 that call `silk_stereo_quant_pred`; `smth` is
+    `state->smth_width_Q14` after the smoother (:128), `r0`, `r1` the rate split of :113-126. -/
+def lrSelect (x : LrIn) (smth total minMid frac r0 r1 p0 p1 : Int) : LrOut :=
+  if x.toMono then                                                                -- :132
+    { q0 := 0, q1 := 0, midOnly := 0, smth := smth, width := 0, rate0 := r0, rate1 := r1 }
+  else if x.widthPrev = 0 ∧ (8 * total < 13 * minMid ∨ smulwb frac smth < Opus.Gen.SilkStereoTabs.thr005Q14) then   -- :138-139
+    { q0 := scalePred smth p0, q1 := scalePred smth p1, midOnly := 1, smth := smth, width := 0, rate0 := total, rate1 := 0 }
+  else if x.widthPrev ≠ 0 ∧ (8 * total < 11 * minMid ∨ smulwb frac smth < Opus.Gen.SilkStereoTabs.thr002Q14) then   -- :153-154
+    { q0 := scalePred smth p0, q1 := scalePred smth p1, midOnly := 0, smth := smth, width := 0, rate0 := r0, rate1 := r1 }
+  else if smth > Opus.Gen.SilkStereoTabs.thr095Q14 then                           -- :165
+    { q0 := p0, q1 := p1, midOnly := 0, smth := smth, width := 16384, rate0 := r0, rate1 := r1 }
+  else
+    { q0 := scalePred smth p0, q1 := scalePred smth p1, midOnly := 0, smth := smth, width := smth, rate0 := r0, rate1 := r1 }
+
 /-- `silk_stereo_LR_to_MS` (stereo_LR_to_MS.c:98-178) from the two `silk_stereo_find_predictor` results
     (`p0`, `lpRatio`), (`p1`, `hpRatio`) to the call of `silk_stereo_quant_pred`. -/
 def lrPreds (x : LrIn) (p0 lpRatio p1 hpRatio : Int) : LrOut :=
@@ -122,16 +136,7 @@ def lrPreds (x : LrIn) (p0 lpRatio p1 hpRatio : Int) : LrOut :=
     else (mid0, total - mid0, 16384)
   let width := rw.2.2
   let smth := wrap16 (smlawb x.smth (width - x.smth) coef)                        -- :128
-  if x.toMono then                                                                -- :132
-    { q0 := 0, q1 := 0, midOnly := 0, smth := smth, width := 0, rate0 := rw.1, rate1 := rw.2.1 }
-  else if x.widthPrev = 0 ∧ (8 * total < 13 * minMid ∨ smulwb frac smth < Opus.Gen.SilkStereoTabs.thr005Q14) then   -- :138-139
-    { q0 := scalePred smth p0, q1 := scalePred smth p1, midOnly := 1, smth := smth, width := 0, rate0 := total, rate1 := 0 }
-  else if x.widthPrev ≠ 0 ∧ (8 * total < 11 * minMid ∨ smulwb frac smth < Opus.Gen.SilkStereoTabs.thr002Q14) then   -- :153-154
-    { q0 := scalePred smth p0, q1 := scalePred smth p1, midOnly := 0, smth := smth, width := 0, rate0 := rw.1, rate1 := rw.2.1 }
-  else if smth > Opus.Gen.SilkStereoTabs.thr095Q14 then                           -- :165
-    { q0 := p0, q1 := p1, midOnly := 0, smth := smth, width := 16384, rate0 := rw.1, rate1 := rw.2.1 }
-  else
-    { q0 := scalePred smth p0, q1 := scalePred smth p1, midOnly := 0, smth := smth, width := smth, rate0 := rw.1, rate1 := rw.2.1 }
+  lrSelect x smth total minMid frac rw.1 rw.2.1 p0 p1
 
 /-- Arguments of one `silk_stereo_find_predictor` call as far as `findPredictor` needs them. -/
 structure FindIn where
